@@ -676,6 +676,8 @@ class Interp(object):
     def st_For(self, s, fr):
         spec = self.find_loop_spec(s, fr)
         it = self.eval(s.iter, fr)
+        if hasattr(it, 'as_sequence'):
+            it = it.as_sequence(self)      # e.g. iteration over a set: an enumeration in unspecified order
         if spec is not None and self._needs_loop_contract(it):
             return spec.run_for(self, s, fr, it)
         items = self.iter_items(it, s, fr)
@@ -803,6 +805,14 @@ class Interp(object):
     def make_set(self, items):
         U = self.ctx.universe
         bits = [False] * U
+        raw = [self.unwrap(it, 'set-literal') for it in items]
+        if raw and all(isinstance(it, (str, int, bytes)) and not isinstance(it, bool) and not is_sym(it) for it in raw):
+            # set of concrete hashable constants (attribute names, ...): generic set with one entry per distinct element
+            seen = []
+            for it in raw:
+                if it not in seen:
+                    seen.append(it)
+            return self.ctx.alloc(GSet([(True, it, None) for it in seen]))
         for it in items:
             it = self.unwrap(it, 'set-literal')
             if it is None:
@@ -986,6 +996,26 @@ class Interp(object):
     def container_binop(self, op, a, b, inplace):
         ca = self.ctx.cell(a) if isinstance(a, Ref) else None
         cb = self.ctx.cell(b) if isinstance(b, Ref) else None
+        if isinstance(ca, GSet) and isinstance(cb, GSet) and isinstance(op, (ast.BitOr, ast.Sub, ast.BitAnd)):
+            # generic sets whose keys are concrete constants: exact set algebra with the presence guards
+            def conc(c):
+                return all(isinstance(k, (str, int, bytes)) and not is_sym(k) for p, k, v in c.entries)
+            if not (conc(ca) and conc(cb)):
+                raise Undecided('set algebra on generic sets with symbolic elements')
+            inb = lambda k: Or(*[p for p, k2, v in cb.entries if k2 == k]) if any(k2 == k for p, k2, v in cb.entries) else False
+            ina = lambda k: Or(*[p for p, k2, v in ca.entries if k2 == k]) if any(k2 == k for p, k2, v in ca.entries) else False
+            if isinstance(op, ast.Sub):
+                ents = [(And(p, Not(inb(k))), k, None) for p, k, v in ca.entries]
+            elif isinstance(op, ast.BitAnd):
+                ents = [(And(p, inb(k)), k, None) for p, k, v in ca.entries]
+            else:
+                ents = [(p, k, None) for p, k, v in ca.entries] + [(And(p, Not(ina(k))), k, None) for p, k, v in cb.entries]
+            ents = [(p, k, v) for p, k, v in ents if p is not False]
+            r = GSet(ents)
+            if inplace:
+                self.ctx.setcell(a, r)
+                return a
+            return self.ctx.alloc(r)
         if isinstance(ca, NSet) and isinstance(cb, NSet):
             if isinstance(op, ast.BitOr):
                 r = NSet([Or(x, y) for x, y in zip(ca.bits, cb.bits)])
